@@ -484,7 +484,7 @@ class Engine:
                 setup(ex)
             try:
                 try:
-                    v = ex.call(fv, a, kw)
+                    v = simplify_under(ex.call(fv, a, kw), ex.pc)
                     outcomes.append(Outcome("return", v, list(ex.pc), ex.wd, ex.facts, ex.qfacts, list(ex.decisions), ex.heap_info(a, kw)))
                 except Raised as r:
                     outcomes.append(Outcome("raise", r.exc, list(ex.pc), ex.wd, ex.facts, ex.qfacts, list(ex.decisions), ex.heap_info(a, kw)))
@@ -503,6 +503,27 @@ class Frame:
         self.module = module
         self.env = env
         self.closure = closure
+
+
+def simplify_under(v, pc):
+    """conditions decided on the path are replaced by their truth value inside the (merged) result terms"""
+    sub = {}
+    for c in pc:
+        if c.op == "not":
+            sub[c.args[0]] = tm.FALSE
+        elif c.op not in ("bool",):
+            sub[c] = tm.TRUE
+    if not sub:
+        return v
+
+    def go(x):
+        if isinstance(x, T):
+            return tm.subst(x, sub)
+        if isinstance(x, tuple):
+            return tuple(go(y) for y in x)
+        return x
+
+    return go(v)
 
 
 def next_trail(decisions):
